@@ -664,5 +664,12 @@ def R5_badge_and_mustpass(run):
                       loc="%s:%s" % (acc["file"], fld[0]["line"] if fld else acc["line"]), found=attrs, detail="seeds = [token_badge, config, %s.key()]" % mint)
 
 
+def R6_cross_checks(run):
+    run.title("R6", 'parameters are validated against, and written to, the same pool: oracles / positions / configs named by a parameter-changing instruction are tied to the pool or config in the same struct (C15.R3 instances)')
+    from rules.common import RuleProxy
+    from rules import C15
+    C15.R3_back_references(RuleProxy(run, 'R6'))
+
+
 RULES = [R1_bounded_stores, R1b_no_other_whirlpool_writers, R1c_pool_initialize, R2_tier_tick_spacing,
-         R3_validate_constants, R4_mint_admission, R5_badge_and_mustpass]
+         R3_validate_constants, R4_mint_admission, R5_badge_and_mustpass, R6_cross_checks]
